@@ -54,6 +54,7 @@ Inductive uop :=
 | UGuard (s : stream) (e : lenexp)
 | UInt (s : stream) (f : string) (w : nat) (e : endian) (acc : lenexp)
 | UBytes (s : stream) (f : string) (e : lenexp)
+| UIntArr (s : stream) (f : string) (w : nat) (en : endian) (e : lenexp)
 | UNested (s : stream) (f : string) (t : ctype) (e : lenexp)
 | UNested0 (s : stream) (f : string) (t : ctype)
 | UEmptyRet (s : stream)
@@ -368,6 +369,20 @@ Definition with_v (st : ustate) (v : valuation) : ustate :=
 
 Inductive ures := UCont (st : ustate) | URet (st : ustate).
 
+(* consecutive w-byte integers of a byte string (a trailing partial slot is ignored); fuel = the length *)
+Fixpoint chunk_ints (w : nat) (en : endian) (fuel : nat) (l : list N) : list N :=
+  match fuel with
+  | O => []
+  | S k =>
+      match w with
+      | O => []
+      | _ =>
+        if Nat.ltb (List.length l) w then []
+        else (match en with LE => le_val (firstn w l) | BE => be_val (firstn w l) end)
+             :: chunk_ints w en k (skipn w l)
+      end
+  end.
+
 (* the word count decoded from the parameter block is kept in the environment under a name no Go identifier has *)
 Definition wc_var : string := "$wc".
 Definition ucond_holds (st : ustate) (c : ucond) : bool :=
@@ -388,6 +403,12 @@ Fixpoint uop_step (p d : sbuf) (st : ustate) (u : uop) : R ures :=
       let S := stream_of s p d in
       let* win := window S st e in
       Ok (UCont (with_v st (vset (us_v st) f (FBytes win))))
+  | UIntArr s f w en e =>
+      (* c.F = [...]T{ T(Uint(S[offset:offset+w])), T(Uint(S[offset+w:offset+2w])), ... }  and the counted loop that
+         fills c.F[i] from consecutive w-byte slots: the window is E bytes, every whole slot in it is one element *)
+      let S := stream_of s p d in
+      let* win := window S st e in
+      Ok (UCont (with_v st (vset (us_v st) f (FStruct (map FInt (chunk_ints w en (List.length win) win))))))
   | UNested s f t e =>
       let S := stream_of s p d in
       let* win := window S st e in
